@@ -38,6 +38,7 @@ TRANSPARENT = [
     re.compile(r"^<.* as (?:std|core)::convert::(?:AsRef|AsMut)<.*>>::as_(?:ref|mut)$"),
     re.compile(r"^<.* as (?:std|core)::borrow::Borrow(?:Mut)?<.*>>::borrow(?:_mut)?$"),
     re.compile(r"^std::vec::Vec::<T, A>::as_(?:mut_)?slice$"),
+    re.compile(r"^(?:std|core)::array::<impl \[T; N\]>::as_(?:mut_)?slice$"),
     re.compile(r"^core::slice::<impl \[T\]>::iter(?:_mut)?$"),
     re.compile(r"^<.* as (?:std|core)::iter::IntoIterator>::into_iter$"),
     re.compile(r"^(?:std|core)::iter::Iterator::copied$"),
@@ -416,6 +417,8 @@ class ExprBuilder:
             if rx.match(name):
                 return args[0] if args else ("unk", name)
         if _INDEX.match(name) and len(args) == 2:
+            if args[1][0] == "agg" and args[1][1].endswith("RangeFull::RangeFull"):
+                return args[0]  # x[..] is an identity view
             return ("idx", args[0], args[1])
         if _LEN.match(name) and len(args) == 1:
             return ("len", args[0])
